@@ -591,6 +591,7 @@ func (x *c05Ctx) one(chosen map[string]bool, chosenNames []string, workers int, 
 	defer os.RemoveAll(dir)
 	restore(dir, s.cl.Tag, g.files, chosen)
 	cl := sim.NewCluster(dir, s.seg, s.cl.Head)
+	cl.FirstStreamable = s.fsb
 	env, err := newC05Env(c, cl, g.req, workers)
 	if err != nil {
 		c.Violation("C05/setup-failed/"+fw.NormalizeMsg(err.Error()), "building the parallel processor failed: "+err.Error(), s.witness(map[string]any{"request": g.req, "present_files": chosenNames}))
@@ -723,11 +724,11 @@ func newC05Env(c *fw.Case, cl *sim.Cluster, req sim.RequestSpec, workers int) (*
 		return nil, err
 	}
 	g := pl.Graph
-	eoc, err := execout.NewConfigs(cacheStore, g.UsedModules(), g.ModuleHashes(), cl.SegSize, 0, zap.NewNop())
+	eoc, err := execout.NewConfigs(cacheStore, g.UsedModules(), g.ModuleHashes(), cl.SegSize, cl.FirstStreamable, zap.NewNop())
 	if err != nil {
 		return nil, err
 	}
-	sc, err := store.NewConfigMap(cacheStore, g.Stores(), g.ModuleHashes(), 0)
+	sc, err := store.NewConfigMap(cacheStore, g.Stores(), g.ModuleHashes(), cl.FirstStreamable)
 	if err != nil {
 		return nil, err
 	}
